@@ -2,6 +2,7 @@ package ast
 
 import (
 	"fmt"
+	"strconv"
 	"strings"
 
 	"github.com/smarthome-go/homescript/v3/homescript/errors"
@@ -101,7 +102,12 @@ func (self AnalyzedFloatLiteralExpression) String() string {
 		return fmt.Sprintf("%df", int64(self.Value))
 	}
 
-	return fmt.Sprint(self.Value)
+	// Plain decimal notation: the lexer knows no exponents.
+	text := strconv.FormatFloat(self.Value, 'f', -1, 64)
+	if !strings.Contains(text, ".") {
+		text += ".0"
+	}
+	return text
 }
 func (self AnalyzedFloatLiteralExpression) Type() Type     { return NewFloatType(self.Range) }
 func (self AnalyzedFloatLiteralExpression) Constant() bool { return true }
@@ -137,6 +143,15 @@ func escapeHmsString(input string) string {
 	output = strings.ReplaceAll(output, "\b", "\\b")
 	return output
 
+}
+
+// Renders the key of an object field so that the lexer and parser read the same key back: a key which is not an
+// identifier (or which is a keyword) is written as a string literal with its content escaped.
+func printObjectKey(key string) string {
+	if util.IsIdent(key) && !util.IsKeyword(key) {
+		return key
+	}
+	return fmt.Sprintf("\"%s\"", escapeHmsString(key))
 }
 
 type AnalyzedStringLiteralExpression struct {
@@ -319,13 +334,7 @@ type AnalyzedObjectLiteralField struct {
 }
 
 func (self AnalyzedObjectLiteralField) String() string {
-	var key string
-	if !util.IsIdent(self.Key.Ident()) {
-		key = fmt.Sprintf("\"%s\"", self.Key.Ident())
-	} else {
-		key = self.Key.Ident()
-	}
-	return fmt.Sprintf("%s: %s", key, self.Expression)
+	return fmt.Sprintf("%s: %s", printObjectKey(self.Key.Ident()), self.Expression)
 }
 
 //
